@@ -28,4 +28,30 @@ static void *vp_memcpy(void *d, const void *s, size_t n)
 #define memcpy(d, s, n) vp_memcpy((d), (s), (n))
 #endif
 
+/* ---- recorders for what evdns.c calls in other units ---- */
+#include "event2/event.h"
+#include "event2/event_struct.h"
+int vp_dns_event_assign_calls, vp_dns_event_add_calls, vp_dns_event_del_calls, vp_dns_rng_calls;
+int event_assign(struct event *ev, struct event_base *base, evutil_socket_t fd, short events,
+    void (*cb)(evutil_socket_t, short, void *), void *arg)
+{
+	vp_dns_event_assign_calls++;
+	ev->ev_base = base; ev->ev_fd = fd; ev->ev_events = events;
+	ev->ev_evcallback.evcb_cb_union.evcb_callback = cb; ev->ev_evcallback.evcb_arg = arg;
+	return 0;
+}
+int event_add(struct event *ev, const struct timeval *tv) { (void)ev; (void)tv; vp_dns_event_add_calls++; return 0; }
+int event_del(struct event *ev) { (void)ev; vp_dns_event_del_calls++; return 0; }
+/* the secure RNG: every byte is a fresh solver-chosen input */
+int vp_dns_rng_fair_ids; /* harness: 2-byte draws (transaction ids) are never 0xffff -- transaction_id_pick
+                          * retries forever on 0xffff; "the RNG eventually yields another value" is the
+                          * environment assumption, stated as "at once" */
+void evutil_secure_rng_get_bytes(void *buf, size_t n)
+{
+	vp_dns_rng_calls++;
+	vp_bytes(buf, n);
+	if (vp_dns_rng_fair_ids && n == 2)
+		__CPROVER_assume(!(((unsigned char *)buf)[0] == 0xff && ((unsigned char *)buf)[1] == 0xff));
+}
+
 #endif
